@@ -227,7 +227,9 @@ pub fn c17_strategy() -> BoxedStrategy<Case> {
             let t9 = T { p: 0, i: 9 };
             let s9 = S { p: 0, i: 9 };
             ops.push(Op::CreateTopic { t: t9, a: false });
-            ops.push(Op::CreateSub { s: s9, t: t9, dl: 10, push: 0, a: false });
+            // (its ack deadline is one of the boundary values a client may legally send)
+            let dl9 = [10, -1, i32::MIN, 0, i32::MAX, -600][(sched_seed % 6) as usize];
+            ops.push(Op::CreateSub { s: s9, t: t9, dl: dl9, push: 0, a: false });
             ops.push(Op::Publish { t: t9, n: 1, payload: Payload::plain(), a: false });
             ops.push(Op::Pull { s: s9, max: 1, ri: true, a: false });
             ops.push(Op::Ack { s: s9, refs: vec![AckRef::Recent(0)], a: false });
@@ -524,8 +526,11 @@ pub fn c18_rpc_strategy() -> BoxedStrategy<Case> {
         ]
         .boxed()
     };
-    let tn = prop_oneof![variant(T0.name()), variant(T1.name()), topic_names()];
-    let sn = prop_oneof![variant(S0.name()), variant(S2.name()), sub_names()];
+    // the same ids also exist in a second project
+    let t0q = T { p: 1, i: 0 };
+    let s0q = S { p: 1, i: 0 };
+    let tn = prop_oneof![variant(T0.name()), variant(T1.name()), variant(t0q.name()), topic_names()];
+    let sn = prop_oneof![variant(S0.name()), variant(S2.name()), variant(s0q.name()), sub_names()];
     let op = prop_oneof![
         3 => tn.clone().prop_map(|name| Op::Raw { req: Req::GetTopic { name }, a: false }),
         2 => tn.clone().prop_map(|name| Op::Raw { req: Req::CreateTopic { name }, a: false }),
@@ -534,10 +539,13 @@ pub fn c18_rpc_strategy() -> BoxedStrategy<Case> {
         1 => sn.clone().prop_map(|sub| Op::Raw { req: Req::Pull { sub, max: 1, ri: true }, a: false }),
         1 => sn.clone().prop_map(|sub| Op::Raw { req: Req::Ack { sub, ack_ids: vec![] }, a: false }),
         1 => sn.clone().prop_map(|sub| Op::Raw { req: Req::Modify { sub, ack_ids: vec![], secs: 10 }, a: false }),
-        1 => sn.prop_map(|sub| Op::Raw { req: Req::Ack { sub, ack_ids: vec!["1".to_string()] }, a: false }),
-        3 => tn.prop_map(|topic| Op::RawPublish { topic, n: 1, a: false }),
+        1 => sn.clone().prop_map(|sub| Op::Raw { req: Req::Ack { sub, ack_ids: vec!["1".to_string()] }, a: false }),
+        3 => tn.clone().prop_map(|topic| Op::RawPublish { topic, n: 1, a: false }),
         // a successful publish in between (whatever the handler remembers about the last topic)
         2 => prop_oneof![Just(T0), Just(T1)].prop_map(|t| Op::Publish { t, n: 1, payload: Payload::plain(), a: false }),
+        // deletions: a name that differs in project (or spelling) from the deleted one keeps its resource
+        2 => tn.clone().prop_map(|name| Op::Raw { req: Req::DeleteTopic { name }, a: false }),
+        1 => sn.clone().prop_map(|name| Op::Raw { req: Req::DeleteSub { name }, a: false }),
     ];
     (any::<u64>(), vec(op, 1..8))
         .prop_map(|(sched_seed, raws)| {
@@ -546,8 +554,17 @@ pub fn c18_rpc_strategy() -> BoxedStrategy<Case> {
                 Op::CreateTopic { t: T1, a: false },
                 Op::CreateSub { s: S0, t: T0, dl: 10, push: 0, a: false },
                 Op::CreateSub { s: S2, t: T1, dl: 10, push: 0, a: false },
+                Op::CreateTopic { t: T { p: 1, i: 0 }, a: false },
+                Op::CreateSub { s: S { p: 1, i: 0 }, t: T { p: 1, i: 0 }, dl: 10, push: 0, a: false },
             ];
             ops.extend(raws);
+            // read every resource back under its canonical name
+            for t in [T0, T1, T { p: 1, i: 0 }] {
+                ops.push(Op::GetTopic { t, a: false });
+            }
+            for s in [S0, S2, S { p: 1, i: 0 }] {
+                ops.push(Op::GetSub { s, a: false });
+            }
             Case { sched_seed, phase_us: 0, fanout_seed: 0, points: vec![], ops }
         })
         .boxed()
